@@ -283,6 +283,75 @@ def run_conc(d, args, tag, harness=H, timeout=300):
     return findings, stats
 
 
+# ----------------------------------------------------------------------------- stalled subscriber
+
+STALL_ARGS = (6, 500, 3)   # healthy subscribers, write deadline of Send in ms (hook H5), rounds
+
+
+def run_stall_once(d, args, tag):
+    """One run of `harness_pubsub stall`.  Returns (status, info): status OK | SUSPECT | SLOW.
+    The verdict per round is the model's (pubsubrun seq): both PUBLISH replies = k, every healthy
+    subscriber received m1 and m2.  A round that fails is SUSPECT unless every failed write to a
+    healthy subscriber is explained by time having passed: the server had allowed (about) the whole
+    deadline for it (remaining >= D/2) and at least D/2 elapsed between setting the deadline and the
+    failure.  A write that fails at once, or with a deadline that had expired when it was set, is the
+    server's fault whatever the load of the machine."""
+    k, dms, rounds = args
+    trace, diag, ver = d / (tag + ".trace"), d / (tag + ".diag"), d / (tag + ".verdict")
+    for f in (trace, diag, ver):
+        if f.exists():
+            f.unlink()
+    rc, log = lib.sh("%s stall %d %d %d %s %s" % (lib.BUILD / H, k, dms, rounds, trace, diag), cwd=d, timeout=120 + rounds * 30)
+    if rc != 0 or not trace.exists():
+        return "SUSPECT", dict(round="?", verdict="CRASH", detail="harness rc=%s: %s" % (rc, tail_of_go_failure(log)), program=[], writes=[])
+    rc2, log2 = lib.sh("%s seq %s %s" % (lib.BUILD / RUNNER, trace, ver), cwd=d, timeout=120)
+    if rc2 != 0 or not ver.exists():
+        raise RuntimeError("pubsubrun failed: rc=%s %s" % (rc2, log2[-1500:]))
+    progs, cur, cid = {}, [], None
+    for l in trace.read_text().splitlines():
+        if l.startswith("CASE "):
+            cid, cur = l.split()[1], []
+        elif l.startswith("OP "):
+            cur.append(l[3:])
+        elif l == "END":
+            progs[cid] = cur
+    writes = {}
+    for l in diag.read_text().splitlines():
+        f = l.split()
+        if f and f[0] == "W":
+            writes.setdefault(f[1], []).append(dict(conn=int(f[2]), remaining_ms=float(f[3]), gap_ms=float(f[4]), dur_ms=float(f[5]), err=f[6]))
+    slow = None
+    for l in ver.read_text().splitlines():
+        f = l.split(" ", 2)
+        if len(f) < 2 or f[1] == "OK":
+            continue
+        failed = [w for w in writes.get(f[0], []) if w["conn"] != 1 and w["err"] != "-"]
+        unexplained = [w for w in failed if not (w["remaining_ms"] >= dms / 2 and w["gap_ms"] + w["dur_ms"] >= dms / 2)]
+        info = dict(round=f[0], verdict=f[1], detail=(f[2] if len(f) > 2 else "")[:3000], program=progs.get(f[0], []),
+                    writes=(unexplained or failed)[:8], deadline_ms=dms)
+        if unexplained or not failed:
+            return "SUSPECT", info
+        slow = info
+    return ("SLOW", slow) if slow else ("OK", dict(rounds=len(progs)))
+
+
+def run_stall(d, args):
+    """SUSPECT must be seen twice to be reported; SLOW (machine too loaded to tell) is retried."""
+    suspects, last = 0, None
+    for attempt in range(4):
+        st, info = run_stall_once(d, args, "stall%d" % attempt)
+        if st == "OK" and suspects == 0:
+            return "OK", dict(attempts=attempt + 1, **info)
+        if st == "SUSPECT":
+            suspects += 1
+            last = info
+            if suspects >= 2:
+                return "VIOLATION", last
+    if suspects:
+        return "OK", dict(attempts=4, note="a failing round was seen once and did not repeat", seen=last)
+    return "OK", dict(attempts=4, note="inconclusive: writes to healthy subscribers took longer than half the deadline on this machine")
+
+
 # ----------------------------------------------------------------------------- the check
 
 def account(seq_stats, c, verdict):
@@ -318,6 +387,14 @@ def replay(ctx, d):
         for f in findings[:5]:
             print("  ", f)
         return 1 if findings else 0
+    if r.get("kind") == "stall":
+        st, info = run_stall(d, tuple(r["args"]))
+        print("stalled-subscriber scenario (healthy subscribers, deadline ms, rounds) =", r["args"], "->", st)
+        if st != "OK":
+            print("   round", info.get("round"), info.get("verdict"), info.get("detail", "")[:1500])
+            for w in info.get("writes", []):
+                print("   failed write to a healthy subscriber:", w)
+        return 0 if st == "OK" else 1
     if not r.get("program"):
         print("replay has no input (a proof / obligation was broken):", r.get("what", "")[:2000])
         facts, bad = lock_obligation(d)
@@ -364,6 +441,7 @@ def run(ctx):
     facts, bad = (None, None)
     seq_stats = dict(cases=0, ops=0, replies=0, pushes=0, nontrivial=0)
     conc_stats = []
+    stall_info = {}
     samples = []
     if built:
         # ---- (T) lock obligation
@@ -409,6 +487,20 @@ def run(ctx):
                                     note="every byte each connection received, decoded by the extracted decoder, must equal the model's output queue (= the specification by the theorems); 'conn=<c> model=… observed=…' names the first connection that differs"))
             ctx.violations += 1
             rc = 1
+        # ---- one subscriber that never reads must cost the others nothing
+        if rc == 0:
+            sargs = STALL_ARGS if not thorough else (7, 700, 8)
+            st, stall_info = run_stall(d, sargs)
+            stall_info["args"] = list(sargs)
+            if st != "OK":
+                lib.violation(PID, dict(kind="stall", theorem="C19_delivery_exact / C19_publish_step / C19_publish_count (model: the stalled connection is one whose writes fail, the healthy ones are open)",
+                                        args=list(sargs), program=stall_info.get("program"),
+                                        readable=describe_ops(["CASE s"] + stall_info.get("program", []) + ["END"]),
+                                        verdict=stall_info.get("verdict"), detail=stall_info.get("detail"),
+                                        failed_writes_to_healthy_subscribers=stall_info.get("writes"), **extra,
+                                        note="connection 1 subscribed and never reads; connections 2.. read all the time; Send's write deadline = %d ms (hook H5). After PUBLISH every healthy subscriber must have the message and still be subscribed (second PUBLISH reaches them, both replies = number of healthy subscribers). failed_writes: remaining_ms = time the server allowed for the write when it set the deadline, gap_ms/dur_ms = time that actually passed: a write failing with (almost) no time allowed or passed is not a slow machine." % sargs[1]))
+                ctx.violations += 1
+                rc = 1
         # ---- (V) concurrent runs
         if rc == 0:
             runs = [(ctx.seed, 4, 5, 1500, 3, 1, 60), (ctx.seed + 1, 6, 6, 1200, 2, 0, 60), (ctx.seed + 2, 3, 8, 2500, 1, 1, 60)]
@@ -455,11 +547,11 @@ def run(ctx):
                              writes_with_deadline=len(facts["writes"]) if facts else 0,
                              table_mutations=len(facts["table_mutations"]) if facts else 0,
                              functions=facts["functions"] if facts else [],
-                             parts=["(A) conns/numSubs only under the channel lock", "(B) Send's writes have a deadline", "(C) channel table mutated under the table lock"]),
+                             parts=["(A) conns/numSubs only under the channel lock", "(B) each of Send's writes has its own deadline computed from time.Now()", "(C) channel table mutated under the table lock"]),
         evaluations=seq_stats["ops"] + sum(s["publishes"] for s in conc_stats),
         distinct_nontrivial=seq_stats["nontrivial"],
         rule="sequential: 10 fixed programs (repeated SUBSCRIBE, client gone, dead connection, framing, retire/re-create a channel…) + seeded random programs of 3-28 operations (SUBSCRIBE of 1-3 channels, PUBLISH, API-level UnSubscribe, client close, server-side kill) over 2-5 connections and 1-3 channels with names/payloads containing CR LF NUL 0xff, RESP look-alikes, empty and long (to 70 kB) byte strings; a program counts as non-trivial when it subscribes, publishes and at least one message push was delivered and compared; evaluations = operations executed sequentially + PUBLISH commands of the concurrent runs",
-        sequential=seq_stats, concurrent=conc_stats, samples=samples or ["(none)"],
+        sequential=seq_stats, stalled_subscriber=stall_info, concurrent=conc_stats, samples=samples or ["(none)"],
         correspondence="bytes received on every connection (real TCP, server.Manager.Handle from the working tree) decoded by extracted decode_stream and compared by extracted observed_match with outq of the extracted model",
     ))
     lib.write_evidence(PID, ctx.tier, ctx.seed, cov,
